@@ -92,6 +92,17 @@ def correspondence(ctx):
         s.meta = {"empty-result": k}
         scns.append(s)
         chains[id(s)] = blocks
+    # chains that begin with the coin's REAL genesis block (its 50-coin pay-to-pubkey output is an unspent output like any other)
+    from .. import genesis
+    for k, (coin, g) in enumerate(sorted(genesis.candidates().items()) * (1 if not ctx.thorough() else 4)):
+        blocks = GH.link([g] + GH.random_history(r, coin, r.randrange(1, 5)))
+        s = K.Scenario(coin=coin, callback="unspentcsvdump")
+        GC.simple_layout(s, blocks)
+        if k >= 4 and k % 2:
+            s.stop = r.randrange(0, len(blocks))
+        s.meta = {"real-genesis": coin, "k": k}
+        scns.append(s)
+        chains[id(s)] = blocks
     hist, build = GH.tiny_histories("bitcoin", 3 if ctx.thorough() else 2)
     for k, spec in enumerate(hist):
         blocks = build(spec)
